@@ -714,6 +714,32 @@ impl Exec {
                 self.handles.remove(ks);
                 self.stale.retain(|(k, _)| k != ks);
             }
+            Op::DeleteStale { ks } => {
+                // deleting through a handle of an earlier, already deleted incarnation of the name
+                // is an operation on that (gone) keyspace: it must not touch the keyspace that
+                // exists under the name now
+                if let Some((_, h)) = self.stale.iter().find(|(k, _)| k == ks) {
+                    let h = h.clone();
+                    let name = ks_name(*ks);
+                    let exists = self.model.ks.contains_key(ks);
+                    self.db()
+                        .delete_keyspace(h)
+                        .map_err(|e| err("delete_keyspace", &format!("{name} (stale handle)"), &e))?;
+                    self.stats.inc("stale_deletes");
+                    if exists {
+                        self.stats.inc("stale_deletes_with_live_successor");
+                    }
+                    if self.db().keyspace_exists(&name) != exists {
+                        return Err(Deviation::new(
+                            "lifecycle:delete-through-stale-handle-hit-successor",
+                            format!(
+                                "delete_keyspace through a handle of an already deleted incarnation of '{name}' changed the existence of the keyspace re-created under that name (exists now: {}, model: {exists})",
+                                !exists
+                            ),
+                        ));
+                    }
+                }
+            }
             Op::Rotate { ks } => {
                 if self.model.ks.contains_key(ks) {
                     let h = self.handle(*ks)?;
